@@ -126,7 +126,9 @@ def gen_bodies(u, msg, extra_ctors=False):
     u.raw("}")
     # constructors used by the server (and, with extra_ctors, by the frontend endpoint)
     ctors = [("VhostUserU64", "new", "r.value == value"),
-             ("VhostUserConfig", "new", "r.offset == offset, r.size == size, r.flags == flags.bits")]
+             ("VhostUserConfig", "new", "r.offset == offset, r.size == size, r.flags == flags.bits"),
+             # every slice length (the Kani harness c01_shmem_config_new_bounded covers slices of <= 4 entries on the un-rewritten code)
+             ("VhostUserShMemConfig", "new", "r.nregions == nregions, r.padding == 0, forall|i: int| 0 <= i < 256 ==> r.memory_sizes@[i] == (if i < memory@.len() { memory@[i] } else { 0u64 })")]
     if extra_ctors:
         ctors += [("VhostUserVringState", "new", "r.index == index, r.num == num"),
                   ("VhostUserMemory", "new", "r.num_regions == cnt, r.padding1 == 0"),
@@ -154,7 +156,8 @@ def gen_bodies(u, msg, extra_ctors=False):
         u.raw("impl %s {" % ty)
         u.extracted_fn(msg, fn, within=span, contract="    ensures %s // [C01,C02,C03]" % ens,
                        body_rw=[("R6", r'direction as u32', 'direction_code(direction)'), ("R6", r'phase as u32', 'phase_code(phase)'),
-                                ("R6", r'config_data\.log_addr\.unwrap_or\(0\)', 'unwrap_or_0(config_data.log_addr)')])
+                                ("R6", r'config_data\.log_addr\.unwrap_or\(0\)', 'unwrap_or_0(config_data.log_addr)'),
+                                ("R19", r'std::array::from_fn\(\|i\| \*memory\.get\(i\)\.unwrap_or\(&0\)\)', 'array256_from_slice_or(memory, 0)')])
         u.raw("}")
 
 
